@@ -599,6 +599,7 @@ func (in *Interp) where(fr *frame, pos token.Pos) string {
 }
 
 func shortFile(f string) string {
+	f = strings.TrimPrefix(f, strings.TrimSuffix(repoDir(), "/")+"/")
 	f = strings.TrimPrefix(f, "/repo/")
 	if i := strings.Index(f, "/pkg/mod/"); i >= 0 {
 		f = f[i+9:]
